@@ -150,7 +150,18 @@ func validateFeature(w b6.World, f b6.Feature) string {
 				if !w.HasFeatureWithID(p.FeatureID()) {
 					return fmt.Sprintf("%s: polygon %d refers to %s, which the world does not have", id, i, p.FeatureID())
 				}
-				pts, prob := pathPointsOf(p)
+				// judge the path the world has under that id now, not only the
+				// object the area hands out (which may be a stale copy)
+				var cur b6.Feature = p
+				if f := w.FindFeatureByID(p.FeatureID()); f != nil {
+					cur = f
+				}
+				pts, prob := pathPointsOf(cur)
+				if prob == "" {
+					if _, prob2 := pathPointsOf(p); prob2 != "" {
+						prob = prob2
+					}
+				}
 				if prob != "" {
 					return fmt.Sprintf("%s: polygon %d: %s", id, i, prob)
 				}
